@@ -106,6 +106,17 @@ def body_rules(ctx):
         "required_after_optional": (None, [f("zq1", optional="true"), f("zq2")]),
         "required_array_after_optional": (None, [f("zq1", optional="true"), arr("zq2", "char", length="1")]),
         "required_length_after_optional": (None, [f("zq1", optional="true"), length("zq2"), f("zq3", "string", length="zq2", optional="true")]),
+        # the optional item that comes first may be a length field or an array, too
+        "required_after_optional_length": (None, [length("zq0", optional="true"), f("zq2"), f("zq1", "string", length="zq0", optional="true")]),
+        "required_array_after_optional_length": (None, [length("zq0", optional="true"), arr("zq2", "char", length="1"),
+                                                        f("zq1", "string", length="zq0", optional="true")]),
+        "required_length_after_optional_length": (None, [length("zq0", optional="true"), length("zq2"),
+                                                         f("zq1", "string", length="zq0", optional="true"),
+                                                         f("zq3", "string", length="zq2", optional="true")]),
+        "required_after_optional_array": (None, [arr("zq1", "char", length="1", optional="true"), f("zq2")]),
+        "required_array_after_optional_array": (None, [arr("zq1", "char", length="1", optional="true"), arr("zq2", "char", length="1")]),
+        "required_length_after_optional_array": (None, [arr("zq1", "char", length="1", optional="true"), length("zq2"),
+                                                        f("zq3", "string", length="zq2", optional="true")]),
         "after_dummy": (None, [X("dummy", [("type", "char")], "1"), f("zq2")]),
         "unnamed_no_value": (None, [f(None, "char")]),
         "unnamed_optional": (None, [f(None, "char", "1", optional="true")]),
@@ -275,3 +286,124 @@ def all_edits(files, rng, per_rule_placements=2):
             yield rule, p, insert_front(files, b, frag)
     for rule, new_files in file_rules(files, ctx).items():
         yield rule, "file", new_files
+
+
+# ---- generic structural edits (no expectation attached: the declarative checkers are the oracle) ------------
+_BUILTINS = ["byte", "char", "short", "three", "int", "bool", "string", "encoded_string", "blob"]
+_INSTR = ("field", "array", "length", "dummy", "switch", "chunked", "break")
+
+
+def _all_elements(files):
+    """[(file index, path, element)] for every element below the roots"""
+    out = []
+
+    def walk(fi, path, e):
+        for i, c in enumerate(e.children):
+            out.append((fi, path + [i], c))
+            walk(fi, path + [i], c)
+    for fi, (_, root) in enumerate(files):
+        walk(fi, [], root)
+    return out
+
+
+def _set_attr(e: Xml, k, v):
+    attrs = [(a, b) for a, b in e.attrs if a != k]
+    if v is not None:
+        attrs.append((k, v))
+    return e.replace(attrs=attrs)
+
+
+def generic_edit(files, rng):
+    """one random small structural change of a specification -> (description, files) or None.
+    The result may be well-formed or not; nobody says which — that is for the checkers and the generator."""
+    files = list(files)
+    elems = _all_elements(files)
+    instrs = [(fi, p, e) for fi, p, e in elems if e.tag in _INSTR]
+    if not instrs:
+        return None
+    type_names = [e.get("name") for _, _, e in elems if e.tag in ("enum", "struct") and e.get("name")]
+    field_names = [e.get("name") for _, _, e in instrs if e.get("name")]
+    kind = rng.choice(["toggle_optional", "swap_adjacent", "delete", "duplicate", "move", "retype", "relength", "toggle_flag",
+                       "case_value", "hardcode", "rename", "switch_field", "toggle_optional", "swap_adjacent", "move", "relength"])
+
+    def upd(fi, path, fn):
+        d, root = files[fi]
+        return files[:fi] + [(d, replace_path(root, path, fn))] + files[fi + 1:]
+
+    def parent_update(fi, path, fn):
+        """fn(list of children of the parent, index) -> new list"""
+        return upd(fi, path[:-1], lambda par: par.replace(children=fn(list(par.children), path[-1])))
+
+    fi, path, e = rng.choice(instrs)
+    if kind == "toggle_optional":
+        cands = [(a, b, c) for a, b, c in instrs if c.tag in ("field", "array", "length")]
+        if not cands:
+            return None
+        fi, path, e = rng.choice(cands)
+        v = None if e.get("optional") == "true" else "true"
+        return f"{kind} {e.tag} {e.get('name')}", upd(fi, path, lambda x: _set_attr(x, "optional", v))
+    if kind == "swap_adjacent":
+        if path[-1] == 0:
+            return None
+        def sw(k, i):
+            k[i - 1], k[i] = k[i], k[i - 1]
+            return k
+        return f"{kind} {e.tag} {e.get('name')}", parent_update(fi, path, sw)
+    if kind == "delete":
+        return f"{kind} {e.tag} {e.get('name')}", parent_update(fi, path, lambda k, i: k[:i] + k[i + 1:])
+    if kind == "duplicate":
+        return f"{kind} {e.tag} {e.get('name')}", parent_update(fi, path, lambda k, i: k[:i + 1] + [k[i]] + k[i + 1:])
+    if kind == "move":
+        # take the instruction out and put it at a random position of a random body of the same file
+        without = parent_update(fi, path, lambda k, i: k[:i] + k[i + 1:])
+        bs = [b for b in bodies(without) if b.fi == fi]
+        if not bs:
+            return None
+        b = rng.choice(bs)
+        pos = rng.randrange(len(b.elem.children) + 1)
+        d, root = without[fi]
+        new_root = replace_path(root, b.path, lambda x: x.replace(children=list(x.children[:pos]) + [e] + list(x.children[pos:])))
+        return f"{kind} {e.tag} {e.get('name')} -> {b.placement}@{pos}", without[:fi] + [(d, new_root)] + without[fi + 1:]
+    if kind == "retype":
+        if e.get("type") is None:
+            return None
+        t = rng.choice(_BUILTINS + type_names + ["NoSuchType", "bool:char", "char:bool", (rng.choice(type_names) + ":short") if type_names else "int"])
+        return f"{kind} {e.tag} {e.get('name')} {e.get('type')}->{t}", upd(fi, path, lambda x: _set_attr(x, "type", t))
+    if kind == "relength":
+        if e.tag not in ("field", "array"):
+            return None
+        lens = [x.get("name") for _, _, x in instrs if x.tag == "length" and x.get("name")]
+        v = rng.choice([None, "0", "3", "x3", "-1"] + lens + field_names[:3])
+        return f"{kind} {e.tag} {e.get('name')} {e.get('length')}->{v}", upd(fi, path, lambda x: _set_attr(x, "length", v))
+    if kind == "toggle_flag":
+        k = rng.choice(["delimited", "padded", "trailing-delimiter"])
+        v = None if e.get(k) == "true" else "true"
+        return f"{kind} {k} {e.tag} {e.get('name')}", upd(fi, path, lambda x: _set_attr(x, k, v))
+    if kind == "case_value":
+        cases = [(a, b, c) for a, b, c in elems if c.tag == "case"]
+        if not cases:
+            return None
+        fi, path, e = rng.choice(cases)
+        if rng.random() < 0.3:
+            v = None if e.get("default") == "true" else "true"
+            return f"{kind} default={v}", upd(fi, path, lambda x: _set_attr(x, "default", v))
+        v = rng.choice([None, "0", "1", "7", "abc", "Unknown"] + ([rng.choice(type_names)] if type_names else []))
+        return f"{kind} value {e.get('value')}->{v}", upd(fi, path, lambda x: _set_attr(x, "value", v))
+    if kind == "hardcode":
+        if e.tag not in ("field", "dummy"):
+            return None
+        v = rng.choice([None, "1", "abc", "true", "12x", ""])
+        return f"{kind} {e.tag} {e.get('name')} text->{v!r}", upd(fi, path, lambda x: x.replace(text=v))
+    if kind == "rename":
+        if e.tag not in ("field", "array", "length"):
+            return None
+        v = rng.choice([None] + field_names)
+        return f"{kind} {e.tag} {e.get('name')}->{v}", upd(fi, path, lambda x: _set_attr(x, "name", v))
+    if kind == "switch_field":
+        sws = [(a, b, c) for a, b, c in instrs if c.tag == "switch"]
+        if not sws:
+            return None
+        fi, path, e = rng.choice(sws)
+        v = rng.choice([None, "nosuch"] + field_names)
+        return f"{kind} {e.get('field')}->{v}", upd(fi, path, lambda x: _set_attr(x, "field", v))
+    return None
